@@ -235,6 +235,56 @@ func hostileSpace(thorough bool, fn func(idx int64, t *rm.Type, p *prim, le bool
 			}
 		}
 	}
+	// (f) SKEWED text lists (valid encodings): n elements of which one (first / middle / last) is long and the others are
+	//     empty - a reservation computed as count x (some element's length) is quadratic in the input although count and
+	//     length are each bounded by it
+	skewed := func(f *rm.Field, emit func(l *rm.Value, desc string)) {
+		for _, n := range []int{8, 64, 1000, 4000} {
+			for _, L := range []int{1000, 4000, 60000} {
+				if uint64(L) > rm.MaxOf(f.Elem.Prefix) || uint64(n) > rm.MaxOf(f.Count) {
+					continue
+				}
+				for _, pos := range []int{0, n / 2, n - 1} {
+					l := &rm.Value{K: rm.VList, Elems: make([]*rm.Value, n)}
+					for j := range l.Elems {
+						l.Elems[j] = rm.TextS("")
+					}
+					l.Elems[pos] = rm.Text(bytes.Repeat([]byte{'s'}, L))
+					emit(l, fmt.Sprintf("skewed text list: %d elements, element %d of %d bytes, the others empty", n, pos, L))
+				}
+			}
+		}
+	}
+	for i := range prims {
+		p := &prims[i]
+		if p.field.Kind != "list" || p.field.Elem.Kind != "lentext" {
+			continue
+		}
+		for _, le := range []bool{false, true} {
+			skewed(&p.field, func(l *rm.Value, desc string) {
+				if ref, _, err := rm.EncodeField(&p.field, l, le); err == nil {
+					fn(idx, nil, p, le, ref, desc)
+					idx++
+				}
+			})
+		}
+	}
+	for _, t := range bind.Types {
+		for fi := range t.Fields {
+			f := &t.Fields[fi]
+			if f.Kind != "list" || f.Elem.Kind != "lentext" {
+				continue
+			}
+			skewed(f, func(l *rm.Value, desc string) {
+				v := valenum.Distinct(t)
+				v.Fields[fi] = l
+				if ref, _, _, err := rm.EncodeRef(v); err == nil {
+					fn(idx, t, nil, false, ref, f.Name+": "+desc)
+					idx++
+				}
+			})
+		}
+	}
 	// (d) per message type: seeds, truncations, substitutions, prefix extremes, unknown keys
 	for _, t := range bind.Types {
 		wireSpace(t, wireOpts{Dev: 1, Indel: true, DevBaseOnly: !thorough, Big: true, Dev2Base: thorough && encLen(valenum.Distinct(t)) <= 120}, func(w []byte, desc string) bool {
@@ -631,7 +681,7 @@ func superviseDecode(r *ev.Run, prop string, thorough bool) {
 	r.Transition(r.Evaluations)
 	r.Trace(r.Evaluations)
 	if prop == "C09" {
-		r.Rule = "every decoder (170 message types + 74 primitive instantiations x BE/LE) x {all byte strings of length <=2; every strict prefix of every V1 reference wire; seeds and their 1-byte insertions, deletions and substitutions; every count/length prefix set to each extreme value followed by 0..8 original bytes and by the full tail; unregistered discriminators spliced in; for 32/64-bit counts 1000/65536/65537 real elements followed by a count that claims more}; executed in 16 worker processes under RLIMIT_AS=8GiB with the case journalled before execution; oracle: the call returns (no panic, no process death), loop iterations <= 256+64*len(input) when the tick instrumentation is active"
+		r.Rule = "every decoder (170 message types + 74 primitive instantiations x BE/LE) x {all byte strings of length <=2; every strict prefix of every V1 reference wire; seeds and their 1-byte insertions, deletions and substitutions; every count/length prefix set to each extreme value followed by 0..8 original bytes and by the full tail; unregistered discriminators spliced in; for 32/64-bit counts 1000/65536/65537 real elements followed by a count that claims more; skewed text lists (8..4000 elements, one of 1000..60000 bytes, the others empty)}; executed in 16 worker processes under RLIMIT_AS=8GiB with the case journalled before execution; oracle: the call returns (no panic, no process death), loop iterations <= 256+64*len(input) when the tick instrumentation is active"
 	} else {
 		r.Rule = "same space as C09; oracle: runtime.MemStats.TotalAlloc delta around the single decode call <= 16384+64*len(input) bytes, worker survives RLIMIT_AS=8GiB; the budget is validated in the same run on every valid encoding of V1"
 	}
